@@ -196,6 +196,8 @@ func errClass(err error) string {
 		{"asset ID does not match", "assetid"},
 		{"trailing garbage", "trailing"},
 		{"unsupported serialization flags", "hdrflags"},
+		{"unsupported asset version", "assetversion"},
+		{"DecodeMessage() got an empty message", "emptymsg"},
 	} {
 		if strings.HasPrefix(msg, p[0]) {
 			return p[1]
@@ -345,8 +347,9 @@ func parseOpLine(line string) (kind string, text []byte, ok bool) {
 type codecGen struct {
 	r *rand.Rand
 	// knobs
-	allowBadAV    bool // inputs with asset version != 1 (nil typed input), outputs with version != 1
-	allowSCSuffix bool // non-empty spend/veto commitment suffix (known finding C04)
+	allowBadAV    bool // outputs with asset version != 1 (zero commitment)
+	allowBadAVIn  bool // inputs with asset version != 1 and a nil typed input (rejected by the decoder)
+	allowSCSuffix bool // non-empty spend/veto commitment suffix
 	count         func(string)
 }
 
@@ -497,7 +500,7 @@ func (g *codecGen) txData() *types.TxData {
 	}
 	for i := 0; i < nIn; i++ {
 		k := g.r.Intn(4)
-		if g.allowBadAV && g.r.Intn(12) == 0 {
+		if g.allowBadAVIn && g.r.Intn(12) == 0 {
 			k = 4
 		}
 		t.Inputs = append(t.Inputs, g.input(k))
@@ -551,12 +554,9 @@ func (g *codecGen) header() *types.BlockHeader {
 func (g *codecGen) block() *types.Block {
 	b := &types.Block{BlockHeader: *g.header()}
 	n := g.r.Intn(5)
-	save := g.allowBadAV
-	g.allowBadAV = false // Block decoding calls MapTx on every transaction
 	for i := 0; i < n; i++ {
 		b.Transactions = append(b.Transactions, &types.Tx{TxData: *g.txData()})
 	}
-	g.allowBadAV = save
 	g.count(fmt.Sprintf("blk:txs=%d", n))
 	return b
 }
